@@ -221,6 +221,10 @@ class RoomManager(BaseManager):
         # room should always have an owner
         room.private = bool(message.owner)
 
+        # The response contains the complete list of joined users: it replaces
+        # the list that was kept before. The previous list is only replaced
+        # after the loop to keep a reference to the users who remain in the room
+        users = []
         for idx, name in enumerate(message.users):
             user = self._user_manager.get_user_object(name)
             user.status = UserStatus(message.users_status[idx])
@@ -228,7 +232,10 @@ class RoomManager(BaseManager):
             user.country = message.users_countries[idx]
             user.slots_free = message.users_slots_free[idx]
 
-            room.add_user(user)
+            if user not in users:
+                users.append(user)
+
+        room.users = users
 
         # For private rooms
         room.owner = message.owner
